@@ -92,6 +92,58 @@ func (e *Engine) EnableStub(name, kind string) {
 				{Cond: And(m, Not(ok)), Ret: Tuple{StrC(""), errv}, Eff: ev},
 			})
 		}
+	case "load-yaml", "load-file":
+		// dag.LoadYAML(data) / dag.LoadWithoutEval(path) / dag.LoadMetadata(path): the YAML
+		// decoder is outside the model. A constant text is a valid definition iff it contains
+		// "command:" (the harness menu marks validity that way); any other text (torn prefixes,
+		// symbolic strings) is valid according to an uninterpreted predicate.
+		e.Intr[full] = func(c *Call) []*State {
+			dagT := c.E.Prog.ImportedPackage(repoMod + "/internal/dag").Type("DAG").Type()
+			valid := func(text *Term) *Term {
+				if text.Const {
+					return BoolC(strings.Contains(text.S, "command:"))
+				}
+				DeclareFun("yaml_valid", "(declare-fun |yaml_valid| (String) Bool)")
+				return App("yaml_valid", SBool, 0, text)
+			}
+			mk := func(st *State, loc *Term) Value {
+				z := Zero(dagT).(*Struct)
+				nf := append([]Value(nil), z.F...)
+				if loc != nil {
+					nf[fieldIndexByName(dagT, "Location")] = loc
+					nf[fieldIndexByName(dagT, "Name")] = c.E.baseSym(st, loc)
+				}
+				return Ptr{Obj: st.Alloc(&Struct{F: nf})}
+			}
+			errv := func(st *State, msg string) Value { return c.E.newErrorString(st, StrC(msg)) }
+			if kind == "load-yaml" {
+				text := c.E.bytesTerm(c.St, c.Args[0])
+				v := valid(text)
+				return c.outcomesNoRet(c.sol2(), []Outcome{
+					{Cond: v, Eff: func(st *State) { c.E.setLocal(st.Threads[c.Th.ID].top(), c.RetTo, Tuple{mk(st, nil), Iface{}}) }},
+					{Cond: Not(v), Eff: func(st *State) { c.E.setLocal(st.Threads[c.Th.ID].top(), c.RetTo, Tuple{Ptr{}, errv(st, "invalid definition")}) }},
+				})
+			}
+			path := c.argTerm(0)
+			// craftFilePath: add .yaml when there is no yaml/yml extension
+			if path.Const && !strings.HasSuffix(path.S, ".yaml") && !strings.HasSuffix(path.S, ".yml") {
+				path = StrC(path.S + ".yaml")
+			}
+			return c.E.fsResolve(c, path, func(st *State, idx int) Value {
+				if idx < 0 || !st.fs().Files[idx].Exists {
+					return Tuple{Ptr{}, errv(st, "failed to read file")}
+				}
+				text := c.E.fsContent(st, idx)
+				v := valid(text)
+				if !v.Const {
+					panic(unsupported("load-file stub on a file with non-constant content"))
+				}
+				if !v.B {
+					return Tuple{Ptr{}, errv(st, "invalid definition")}
+				}
+				return Tuple{mk(st, path), Iface{}}
+			})
+		}
 	default:
 		panic("unknown stub kind " + kind)
 	}
